@@ -177,4 +177,189 @@ theorem rtr_parseRecipe_steps (env : Env) (pre : List Tok) (doc : List (List Seg
   simp only [SimpleRecipe.events] at this
   rw [this]
 
+/-! ### the result in closed form, from the abstract segments -/
+
+def absQty (q : AQty) (isIngr : Bool) : Quantity (ScalableValue α) :=
+  ⟨if isIngr && !q.val.isText && !q.lock then .linear q.val.denote else .fixed q.val.denote, q.unit.map leafText⟩
+
+/-- the ingredient an abstract component stands for -/
+def absIngr (c : AComp) : Ingredient (ScalableValue α) :=
+  ⟨match parseReference (leafText c.name) with
+    | some r => r.name
+    | none => leafText c.name,
+   c.alias.map leafText, c.qty.map (fun q => absQty q true), c.note.map leafText, parseReference (leafText c.name),
+   ⟨.definition [] true, none⟩, modsOf c.mods⟩
+
+def absCw (c : AComp) : Cookware (ScalableValue α) :=
+  ⟨leafText c.name, c.alias.map leafText, c.qty.map (fun q => (absQty (α := α) q false).value), c.note.map leafText,
+   .definition [] true, modsOf c.mods⟩
+
+def absTimer (c : ATimer) : Timer (ScalableValue α) :=
+  ⟨c.name.map leafText, c.qty.map (fun q => absQty q false)⟩
+
+theorem rtr_expQuantity_abs (env : Env) (aq : AQty) (pq : Loc (PQuantity α)) (b : Bool)
+    (h : QtyMatches env.cs (some aq) (some pq)) : expQuantity env pq b = absQty aq b := by
+  simp only [QtyMatches] at h
+  simp only [expQuantity, expValue, absQty, h.1, h.2.1, h.2.2, rtr_denote_isText]
+
+theorem rtr_optQuantity_abs (env : Env) (aq : Option AQty) (pq : Option (Loc (PQuantity α))) (b : Bool)
+    (h : QtyMatches env.cs aq pq) : pq.map (fun q => expQuantity env q b) = aq.map (fun q => absQty q b) := by
+  cases aq <;> cases pq <;> simp only [QtyMatches] at h
+  · rfl
+  · simp only [Option.map_some, rtr_expQuantity_abs env _ _ b (by simpa [QtyMatches] using h)]
+
+theorem rtr_ingrOf_abs (env : Env) (c : AComp) (li : Loc (PIngredient α)) (h : IngrMatches env.cs c li.val) :
+    ingrOf env li = absIngr c := by
+  obtain ⟨h1, h2, h3, h4, -, h6⟩ := h
+  simp only [ingrOf, absIngr, h1, h2, h3, h4, rtr_optQuantity_abs env _ _ true h6]
+  congr 1
+
+theorem rtr_cwOf_abs (env : Env) (c : AComp) (lc : Loc (PCookware α)) (h : CwMatches env.cs c lc.val) :
+    cwOf env lc = absCw c := by
+  obtain ⟨h1, h2, h3, h4, h5⟩ := h
+  have hq : lc.val.quantity.map (fun q => expValue q.val false) =
+      c.qty.map (fun q => (absQty (α := α) q false).value) := by
+    cases hc : c.qty <;> cases hl : lc.val.quantity <;> rw [hc, hl] at h5 <;> simp only [CwQtyMatches] at h5
+    · rfl
+    · simp [expValue, absQty, h5.1]
+  simp only [cwOf, absCw, h1, h2, h3, h4, hq]
+
+theorem rtr_timerOf_abs (env : Env) (c : ATimer) (lt : Loc (PTimer α)) (h : TimerMatches env.cs c lt.val) :
+    timerOf env lt = absTimer c := by
+  obtain ⟨h1, h2⟩ := h
+  simp only [timerOf, absTimer, h1, rtr_optQuantity_abs env _ _ false h2]
+
+def SegX.ingr? : SegX → Option AComp
+  | .ingredient c _ => some c
+  | .ingredient1 c => some c
+  | _ => none
+def SegX.cw? : SegX → Option AComp
+  | .cookware c _ => some c
+  | .cookware1 c => some c
+  | _ => none
+def SegX.timer? : SegX → Option ATimer
+  | .timer c _ => some c
+  | _ => none
+
+/-- the step item of a segment: the shown text of a run, or the number of components of the kind
+    among the segments before it -/
+def SegX.toItem (before : List SegX) : SegX → Item
+  | .text l => .text (l.flatMap vis)
+  | .ingredient _ _ => .ingredient (before.filterMap SegX.ingr?).length
+  | .ingredient1 _ => .ingredient (before.filterMap SegX.ingr?).length
+  | .ingredientI _ _ _ _ _ _ => .ingredient (before.filterMap SegX.ingr?).length
+  | .cookware _ _ => .cookware (before.filterMap SegX.cw?).length
+  | .cookware1 _ => .cookware (before.filterMap SegX.cw?).length
+  | .timer _ _ => .timer (before.filterMap SegX.timer?).length
+
+def absItemsFrom (before : List SegX) : List SegX → List Item
+  | [] => []
+  | sg :: r => sg.toItem before :: absItemsFrom (before ++ [sg]) r
+
+def absStepsFrom (before : List SegX) (num : Nat) : List (List SegX) → List Content
+  | [] => []
+  | st :: r => .step ⟨absItemsFrom before st, num⟩ :: absStepsFrom (before ++ st) (num + 1) r
+
+theorem rtr_all2_append {β γ : Type} {R : β → γ → Prop} {a1 a2 : List β} {b1 b2 : List γ}
+    (h1 : All2 R a1 b1) (h2 : All2 R a2 b2) : All2 R (a1 ++ a2) (b1 ++ b2) := by
+  induction h1 with
+  | nil => exact h2
+  | cons hd _ ih => exact All2.cons hd ih
+
+/-- matching segments and items (simple segments): the same tables, the same counts -/
+theorem rtr_tables (env : Env) (segs : List SegX) (st : List (SItem α)) (h : SegsItems env.cs segs st)
+    (hs : segs.all SegX.simple = true) :
+    (ingrsOf st).map (ingrOf env) = (segs.filterMap SegX.ingr?).map absIngr ∧
+    (cwsOf st).map (cwOf env) = (segs.filterMap SegX.cw?).map absCw ∧
+    (timersOf st).map (timerOf env) = (segs.filterMap SegX.timer?).map absTimer := by
+  induction h with
+  | nil => exact ⟨rfl, rfl, rfl⟩
+  | @cons seg it segs' st' hd _ ih =>
+    simp only [List.all_cons, Bool.and_eq_true] at hs
+    obtain ⟨i1, i2, i3⟩ := ih hs.2
+    have hs1 := hs.1
+    cases seg <;> cases it <;> simp only [SItem.ev, SegXEv] at hd <;>
+      simp only [SegX.simple, Bool.false_eq_true] at hs1 <;>
+      simp only [ingrsOf, cwsOf, timersOf, List.filterMap_cons, SItem.ingr?, SItem.cw?, SItem.timer?, SegX.ingr?,
+        SegX.cw?, SegX.timer?, List.map_cons] at i1 i2 i3 ⊢
+    · exact ⟨i1, i2, i3⟩
+    · exact ⟨by rw [i1, rtr_ingrOf_abs env _ _ hd], i2, i3⟩
+    · exact ⟨i1, by rw [i2, rtr_cwOf_abs env _ _ hd], i3⟩
+    · exact ⟨i1, i2, by rw [i3, rtr_timerOf_abs env _ _ hd]⟩
+    · exact ⟨by rw [i1, rtr_ingrOf_abs env _ _ hd], i2, i3⟩
+    · exact ⟨i1, by rw [i2, rtr_cwOf_abs env _ _ hd], i3⟩
+
+theorem rtr_counts (env : Env) (segs : List SegX) (st : List (SItem α)) (h : SegsItems env.cs segs st)
+    (hs : segs.all SegX.simple = true) :
+    (ingrsOf st).length = (segs.filterMap SegX.ingr?).length ∧ (cwsOf st).length = (segs.filterMap SegX.cw?).length ∧
+    (timersOf st).length = (segs.filterMap SegX.timer?).length := by
+  obtain ⟨h1, h2, h3⟩ := rtr_tables env segs st h hs
+  have := congrArg List.length h1
+  have := congrArg List.length h2
+  have := congrArg List.length h3
+  simp only [List.length_map] at *
+  exact ⟨by assumption, by assumption, by assumption⟩
+
+theorem rtr_toItem (env : Env) (bsegs : List SegX) (before : List (SItem α)) (hb : SegsItems env.cs bsegs before)
+    (hbs : bsegs.all SegX.simple = true) (seg : SegX) (it : SItem α) (h : SegXEv env.cs seg it.ev)
+    (hs : seg.simple = true) : it.toItem before = seg.toItem bsegs := by
+  obtain ⟨c1, c2, c3⟩ := rtr_counts env bsegs before hb hbs
+  cases seg <;> cases it <;> simp only [SItem.ev, SegXEv] at h <;> simp only [SegX.simple, Bool.false_eq_true] at hs <;>
+    simp only [SItem.toItem, SegX.toItem, c1, c2, c3, h]
+
+theorem rtr_itemsFrom (env : Env) : ∀ (segs : List SegX) (st : List (SItem α)), SegsItems env.cs segs st →
+    segs.all SegX.simple = true → ∀ (bsegs : List SegX) (before : List (SItem α)), SegsItems env.cs bsegs before →
+    bsegs.all SegX.simple = true → itemsFrom before st = absItemsFrom bsegs segs := by
+  intro segs st h
+  induction h with
+  | nil => intros; rfl
+  | @cons seg it segs' st' hd _ ih =>
+    intro hs bsegs before hb hbs
+    simp only [List.all_cons, Bool.and_eq_true] at hs
+    simp only [itemsFrom, absItemsFrom, rtr_toItem env bsegs before hb hbs seg it hd hs.1]
+    rw [ih hs.2 (bsegs ++ [seg]) (before ++ [it]) (rtr_all2_append hb (All2.cons hd All2.nil))
+      (by simp [List.all_append, hbs, hs.1])]
+
+theorem rtr_stepsFrom (env : Env) : ∀ (doc : List (List SegX × List Tok)) (steps : List (List (SItem α))),
+    All2 (fun (d : List SegX × List Tok) st => SegsItems env.cs d.1 st) doc steps →
+    (∀ d ∈ doc, d.1.all SegX.simple = true) → ∀ (bsegs : List SegX) (before : List (SItem α)) (n : Nat),
+    SegsItems env.cs bsegs before → bsegs.all SegX.simple = true →
+    stepsFrom before n steps = absStepsFrom bsegs n (doc.map (·.1)) ∧
+    SegsItems env.cs (bsegs ++ (doc.map (·.1)).flatten) (before ++ steps.flatten) := by
+  intro doc steps h
+  induction h with
+  | nil => intro _ bsegs before n hb _; exact ⟨rfl, by simpa using hb⟩
+  | @cons d st doc' steps' hd _ ih =>
+    intro hs bsegs before n hb hbs
+    have hs1 := hs d (by simp)
+    obtain ⟨i1, i2⟩ := ih (fun x hx => hs x (by simp [hx])) (bsegs ++ d.1) (before ++ st) (n + 1)
+      (rtr_all2_append hb hd) (by simp [List.all_append, hbs, hs1])
+    refine ⟨?_, by simpa [List.append_assoc] using i2⟩
+    simp only [stepsFrom, absStepsFrom, List.map_cons, rtr_itemsFrom env d.1 st hd hs1 bsegs before hb hbs, i1]
+
+/-- `expectedCol` of a simple recipe whose items match the segments of a printed document, in closed
+    form: the tables and the steps are functions of the abstract segments -/
+theorem rtr_expectedCol_abs (env : Env) (doc : List (List SegX × List Tok)) (r : SimpleRecipe α)
+    (h : All2 (fun (d : List SegX × List Tok) st => SegsItems env.cs d.1 st) doc r.steps)
+    (hs : ∀ d ∈ doc, d.1.all SegX.simple = true) :
+    (expectedCol env r).sections = (if doc.isEmpty then [] else [⟨none, absStepsFrom [] 1 (doc.map (·.1))⟩]) ∧
+    (expectedCol env r).ingredients.toList = ((doc.map (·.1)).flatten.filterMap SegX.ingr?).map absIngr ∧
+    (expectedCol env r).cookware.toList = ((doc.map (·.1)).flatten.filterMap SegX.cw?).map absCw ∧
+    (expectedCol env r).timers.toList = ((doc.map (·.1)).flatten.filterMap SegX.timer?).map absTimer := by
+  obtain ⟨steps⟩ := r
+  simp only at h
+  obtain ⟨e1, e2⟩ := rtr_stepsFrom env doc steps h hs [] [] 1 All2.nil rfl
+  simp only [List.nil_append] at e2
+  have hall : ((doc.map (·.1)).flatten).all SegX.simple = true := by
+    rw [List.all_eq_true]
+    intro x hx
+    obtain ⟨l, hl, hxl⟩ := List.mem_flatten.1 hx
+    obtain ⟨d, hd, rfl⟩ := List.mem_map.1 hl
+    exact List.all_eq_true.1 (hs d hd) x hxl
+  obtain ⟨t1, t2, t3⟩ := rtr_tables env _ _ e2 hall
+  refine ⟨?_, by simpa [expectedCol] using t1, by simpa [expectedCol] using t2, by simpa [expectedCol] using t3⟩
+  have hemp : steps.isEmpty = doc.isEmpty := by
+    cases h <;> rfl
+  simp only [expectedCol, hemp, e1]
+
 end Cook
